@@ -102,10 +102,15 @@ def is_sentinel(P, n, depth=0):
     return False
 
 
+_FOLD = {"+": lambda a, b: a + b, "-": lambda a, b: a - b, "*": lambda a, b: a * b, "|": lambda a, b: a | b, "&": lambda a, b: a & b,
+         "<<": lambda a, b: a << b if 0 <= b < 64 else None, ">>": lambda a, b: a >> b if 0 <= b < 64 else None}
+
+
 def int_of(P, e, depth=0):
-    """integer value of a literal or of a workspace constant defined by a literal; None otherwise"""
+    """integer value of a constant expression: a literal, a workspace constant, or arithmetic over those (`1 << SHIFT`,
+    `BASE - 1`); None otherwise"""
     e = strip(e)
-    if not isinstance(e, dict):
+    if not isinstance(e, dict) or depth > 6:
         return None
     v = lit_value(e)
     if v is not None:
@@ -113,11 +118,145 @@ def int_of(P, e, depth=0):
             return int(str(v))
         except ValueError:
             return None
-    if e.get("k") == "Path" and "def" in e and depth < 2:
+    if e.get("k") == "Path" and "def" in e:
         c = P.fns.get(norm(e["def"]))
         if c is not None and str(c.kind).startswith("Const"):
             return int_of(P, c.body, depth + 1)
+    if e.get("k") == "Binary" and e.get("op") in _FOLD:
+        a, b = int_of(P, e["l"], depth + 1), int_of(P, e["r"], depth + 1)
+        if a is not None and b is not None:
+            return _FOLD[e["op"]](a, b)
     return None
+
+
+# ---------------------------------------------------------------------------------------------------- vocabulary by role
+class Vocab:
+    """The names this property talks about, located by what the code does with them rather than by how they are spelled, so that a
+    consistent renaming of the writer's fields and methods changes nothing.  The two writer *types* and the SourceMapWriter trait
+    are the fixed anchors; every member falls back to its pinned name when its role cannot be read off the code."""
+
+    def __init__(self, P):
+        self.P = P
+        self.write = P.fn(SMW_WRITE)
+        self.write_for = P.fn(SMW_WRITE_FOR)
+        sw_types = P.adt(SW).field_types()
+        mw_types = P.adt(MW).field_types()
+        # --- SourceWriter fields, read off `write` and the helpers it calls
+        w = inl(P, self.write, _not_utf16_len)
+        pv = Prov(w, field_assign=False)
+        text = [pv.params[p["local"]] for p in w.params[1:2] if p.get("k") == "Binding"]
+        adv, true_flags = {}, set()
+        for n in w.walk():
+            f, e = advance_of(n, SW)
+            if f:
+                adv.setdefault(f, []).append(e)
+            if n.get("k") == "Assign" and n["l"].get("k") == "Field" and norm(n["l"].get("adt")) == SW and str(lit_value(n["r"])).lower() == "true":
+                true_flags.add(n["l"]["field"])
+        cols = sorted(f for f, es in adv.items() if text and any(("param", text[0]) in pv.atoms(e) for e in es))
+        self.f_col = cols[0] if len(cols) == 1 else "current_column"
+        lines = sorted(f for f, es in adv.items() if f not in cols and all(int_of(P, e) is not None for e in es))
+        self.f_line = lines[0] if len(lines) == 1 else "current_line"
+        flags = sorted(f for f in true_flags if sw_types.get(f) == "bool")
+        self.f_flag = flags[0] if len(flags) == 1 else "has_indent_flag"
+        mappers = [f for f, t in sw_types.items() if "Option<" in t and "Vec<usize>" in t]
+        self.f_mapper = mappers[0] if len(mappers) == 1 else "file_index_mapper"
+        widths = sorted({a[2] for es in adv.get(self.f_col, []) for e in es for a in pv.atoms(e)
+                         if a[0] == "field" and a[1] == SW and sw_types.get(a[2]) == "usize" and a[2] not in (self.f_col, self.f_line)})
+        self.f_indent = widths[0] if len(widths) == 1 else "indent"
+        # --- SourceWriter methods
+        own = [g for g in P.fns.values() if g.self_adt == SW and not g.derived and not g.impl_trait and "::tests" not in g.path]
+
+        def assigns(g, field, value=None):
+            return any(n.get("k") == "Assign" and n["l"].get("k") == "Field" and norm(n["l"].get("adt")) == SW and n["l"]["field"] == field
+                       and (value is None or str(lit_value(n["r"])).lower() == value) for n in g.walk())
+        fl = [g for g in own if assigns(g, self.f_flag, "false") and g.path in P.reachable([self.write]) and g.raw.get("params") and len(g.params) == 1]
+        self.flush = fl[0] if len(fl) == 1 else P.fn(SW + "::flush_pending_indent")
+        sm = [g for g in own if assigns(g, self.f_mapper) and len(g.params) == 2]
+        self.set_mapper = sm[0] if len(sm) == 1 else P.fn(SW + "::set_file_index_mapper")
+        # --- MappingWriter: the delta bases are its counters; add_entry is the method write_for drives
+        self.bases = [f for f, t in mw_types.items() if t == "usize"]
+        scope = scope_fns(P, self.write_for)
+        ae = [g for g in scope if g.self_adt == MW and not g.derived and not g.impl_trait
+              and any(n.get("k") == "Assign" and n["l"].get("k") == "Field" and norm(n["l"].get("adt")) == MW and n["l"]["field"] in self.bases for n in g.walk())]
+        ae = [g for g in ae if not any(g.path in P.callees_of(h)[0] for h in ae if h is not g)] or ae
+        self.add_entry = ae[0] if len(ae) == 1 else P.fn(MW + "::add_entry")
+        self.name_fns = {g.path for g in P.fns.values() if (g.self_adt or "").endswith("::NameMapper") and g.sig_output == "usize"}
+        # --- the VLQ encoder: the function that indexes the 64-entry digit table, and its wrappers
+        crate = [g for g in P.fns.values() if g.crate == self.write.crate and g.kind == "Fn" and "::test" not in g.path and not g.derived]
+        cores = [g for g in crate if any(digit_table(P, x) for x in g.walk())]
+        self.vlq_core = cores[0] if len(cores) == 1 else P.fn("sourcemap_writer::base64_vlq::base64_vlq")
+        self.vlq_fns = {g.path for g in crate if self.vlq_core.path in P.reachable([g])}
+        self.utf16_len = P.fn("sourcemap_writer::source_writer::utf16_len::utf16_len")
+        # --- which counter remembers what: told by the field names when they use the Source Map vocabulary
+        roles = {}
+        for b in self.bases:
+            r = token_role(b)
+            if r:
+                roles.setdefault(r, []).append(b)
+        self.base_role = {v[0]: r for r, v in roles.items() if len(v) == 1} if len(roles) == 6 and all(len(v) == 1 for v in roles.values()) else {}
+
+
+_VOCAB = {}
+
+
+def vocab(P):
+    if id(P) not in _VOCAB:
+        _VOCAB[id(P)] = Vocab(P)
+    return _VOCAB[id(P)]
+
+
+ROLES = ["gcol", "src", "oline", "ocol", "name"]          # Source Map v3 order of the VLQ fields of a segment
+ROLE_NAME = {"gline": "generated line", "gcol": "generated column", "src": "source index", "oline": "original line", "ocol": "original column",
+             "name": "name index"}
+
+
+def token_role(field):
+    t = set(field.lower().split("_"))
+    line, col = bool(t & {"line"}), bool(t & {"column", "col"})
+    gen, orig = bool(t & {"generated", "gen"}), bool(t & {"original", "orig"})
+    if "name" in t and not (line or col):
+        return "name"
+    if t & {"file", "source", "src"} and not (line or col or gen or orig):
+        return "src"
+    if (line != col) and (gen != orig):
+        return ("g" if gen else "o") + ("line" if line else "col")
+    return None
+
+
+def advance_of(n, adt):
+    """(`field`, e) for `self.field += e` / `self.field = self.field + e` on a field of `adt`; (None, None) otherwise"""
+    def fld(x):
+        x = strip(x)
+        return x["field"] if isinstance(x, dict) and x.get("k") == "Field" and norm(x.get("adt")) == adt else None
+    if n.get("k") == "AssignOp" and n.get("op") == "+=" and fld(n["l"]):
+        return fld(n["l"]), n["r"]
+    if n.get("k") == "Assign" and fld(n["l"]):
+        b = strip(n["r"])
+        if b.get("k") == "Binary" and b.get("op") == "+":
+            for own_, other in ((b["l"], b["r"]), (b["r"], b["l"])):
+                if fld(own_) == fld(n["l"]):
+                    return fld(n["l"]), other
+    return None, None
+
+
+def digit_table(P, x):
+    """the 64 digits when `x` indexes a workspace constant holding them (chars or a byte string); None otherwise"""
+    if x.get("k") != "Index":
+        return None
+    b = strip(x["e"])
+    if not (isinstance(b, dict) and b.get("k") == "Path" and "def" in b):
+        return None
+    c = P.fns.get(norm(b["def"]))
+    if c is None or not str(c.kind).startswith(("Const", "Static")):
+        return None
+    chars = "".join(y.get("v") for y in c.walk() if y.get("k") == "Lit" and y.get("lk") == "char")
+    if not chars:
+        for y in c.walk():
+            if y.get("k") == "Lit" and isinstance(y.get("v"), list) and y.get("lk") == "bytes":
+                chars = "".join(chr(i) for i in y["v"])
+            elif y.get("k") == "Lit" and y.get("lk") == "str" and isinstance(y.get("v"), str):
+                chars = y["v"]
+    return (chars, c) if len(chars) == 64 else None
 
 
 TRANSPARENT = {"clone", "to_owned", "as_ref", "as_mut", "borrow", "borrow_mut", "unwrap", "expect", "into", "copied", "cloned", "deref"}
@@ -359,23 +498,26 @@ def _direct(v):
 
 
 def outside_param(atoms):
-    return any(a[0] == "param" and a[1] != "self" for a in atoms)
+    """the value arrives through a parameter and nothing is known about where it was read from (no field of the cursor or of the
+    node position among its atoms): it was computed by a caller this rule does not see"""
+    return any(a[0] == "param" and a[1] != "self" for a in atoms) and not any(a[0] == "field" and a[1] in (SW, POS) for a in atoms)
 
 
 def delta_bases(P):
-    return [x for x in P.adt(MW).fields() if x.startswith("last_")]
+    return vocab(P).bases
 
 
 def entry_roles(P):
     """{delta base: (parameter index of add_entry, field path)} — the component of add_entry's input that each last_* field
     remembers (and is subtracted from); this is what gives an argument of add_entry its meaning, independently of parameter
     order, names or packaging.  A base whose update and subtraction disagree has no role (R06-a reports it)."""
-    f = inl(P, P.fn(MW + "::add_entry"))
+    V = vocab(P)
+    f = inl(P, V.add_entry)
     C = Comp(P, f)
 
     def base_of(e):
         e = strip(e)
-        return e["field"] if e.get("k") == "Field" and norm(e.get("adt")) == MW and e["field"].startswith("last_") else None
+        return e["field"] if e.get("k") == "Field" and norm(e.get("adt")) == MW and e["field"] in V.bases else None
     found = {}
     for n in f.walk():
         if n.get("k") == "Assign" and base_of(n["l"]):
@@ -393,8 +535,8 @@ def entry_component(C, call, role):
     return C.comp(args[idx], path)
 
 
-def add_entry_calls(fn):
-    return [c for c in fn.walk() if c.get("k") in ("MethodCall", "Call") and (call_name(c) or "") == MW + "::add_entry"]
+def add_entry_calls(P, fn):
+    return [c for c in fn.walk() if c.get("k") in ("MethodCall", "Call") and (call_name(c) or "") == vocab(P).add_entry.path]
 
 
 # ------------------------------------------------------------------------------------------------------------- rules
@@ -412,13 +554,15 @@ SUBTRACTIONS = {"wrapping_sub", "checked_sub", "saturating_sub", "overflowing_su
 
 def r06a(P, R):
     """delta-base discipline in MappingWriter::add_entry"""
-    f0 = P.fn(MW + "::add_entry")
+    V = vocab(P)
+    f0 = V.add_entry
     f = inl(P, f0)
     pv = Prov(f, field_assign=False)
     acc = f.nodes()
+    bases = V.bases
 
     def last_fields(atoms):
-        return sorted({a[2] for a in atoms if a[0] == "field" and a[1] == MW and a[2].startswith("last_")})
+        return sorted({a[2] for a in atoms if a[0] == "field" and a[1] == MW and a[2] in bases})
     deltas = {}   # last field -> [(quantity, ctx, op)]
     for i, (n, _) in enumerate(acc):
         k = n.get("k")
@@ -436,9 +580,8 @@ def r06a(P, R):
             deltas.setdefault((lf or rf)[0], []).append((quantity(ra if lf else la), cond_ctx(f, i), "!="))
     assigns = {}
     for i, (n, _) in enumerate(acc):
-        if n.get("k") == "Assign" and n["l"].get("k") == "Field" and norm(n["l"].get("adt")) == MW and n["l"]["field"].startswith("last_"):
+        if n.get("k") == "Assign" and n["l"].get("k") == "Field" and norm(n["l"].get("adt")) == MW and n["l"]["field"] in bases:
             assigns.setdefault(n["l"]["field"], []).append((quantity(pv.atoms(n["r"])), cond_ctx(f, i)))
-    bases = delta_bases(P)
     R.floor("R06-a", "delta bases (last_* fields)", len(bases), 6)
     reads = {n["field"] for n in f.walk() if n.get("k") == "Field" and norm(n.get("adt")) == MW}
     rebuilt = any(n.get("k") == "Struct" and "rest" not in n and norm(n.get("adt", "")) == MW for n in f.walk())
@@ -481,38 +624,109 @@ def r06a(P, R):
             R.undecided("R06-a", b + ":updated-on-emission-paths", "`%s` is updated and subtracted under conditions this rule cannot compare" % b, loc=f.loc())
     # field order of a segment: generated column, source, original line, original column[, name] — every VLQ field is identified by
     # the delta base that remembers the quantity it is computed from
-    vlq = [(i, n) for i, (n, _) in enumerate(acc) if n.get("k") == "Call" and (call_name(n) or "").endswith("base64_vlq::base64_vlq") and n["args"]]
-    R.floor("R06-a", "VLQ emissions", len(vlq), 5)
-    want = ["last_generated_column", "last_file_index", "last_original_line", "last_original_column", "last_name_index"]
-    direct = all(any(p.get("k") == "MethodCall" and peel_ty(p["recv"].get("t", "")) == "alloc::string::String" for p in f.parents_of(i)) for i, _ in vlq)
-    order, unknown = [], False
-    for i, n in vlq:
-        q = quantity(pv.atoms(n["args"][0]))
-        inv = [b for b in bases if b in qb and qb[b] and qb[b] <= q]
-        unknown = unknown or not inv
-        name = "|".join(inv)
-        if not order or order[-1] != name:
-            order.append(name)
-    if not vlq:
+    order, problem = vlq_order(P, f, pv, qb)
+    R.floor("R06-a", "VLQ emissions", len(order), 5)
+    if not order:
         pass
-    elif not direct or unknown or any(b not in qb for b in want):
-        R.undecided("R06-a", "segment-field-order", "the VLQ fields are not all pushed where they are computed, or some cannot be tied to a delta base "
-                    "(%s)" % order, loc=f.loc())
+    elif problem or not V.base_role:
+        R.undecided("R06-a", "segment-field-order", problem or "the counters' names do not say which quantity each remembers; the order is checked "
+                    "against what write_for passes (R06-c)", loc=f.loc())
     else:
-        R.check("R06-a", "segment-field-order", order == want, "segment fields are emitted in Source Map v3 order",
+        got = ["|".join(V.base_role.get(b, b) for b in o) for o in order]
+        R.check("R06-a", "segment-field-order", got == ROLES, "segment fields are emitted in Source Map v3 order",
                 "segment fields are computed from the quantities remembered in %s; Source Map v3 requires [column, source, line, column, name], "
-                "each field from its own quantity only" % order, loc=f.loc())
+                "each field from its own quantity only" % ["|".join(o) for o in order], loc=f.loc())
+    restart_rule(P, R)
+
+
+def vlq_order(P, f, pv, qb):
+    """([bases involved in the k-th distinct VLQ field of a segment], problem | None) read off the calls of the VLQ encoder in
+    add_entry (an inl() copy), in emission order; qb: base -> the quantity it remembers"""
+    V = vocab(P)
+    acc = f.nodes()
+    vlq = []
+    for i, (n, _) in enumerate(acc):
+        if n.get("k") == "Call" and (call_name(n) or "") in V.vlq_fns and not any("inl" in p and (call_name(p) or "") in V.vlq_fns for p in f.parents_of(i)):
+            val = [a for a in n["args"] if peel_ty(a.get("t", "")) == "isize"]
+            sink = any(peel_ty(a.get("t", "")) == "alloc::string::String" for a in n["args"])
+            nested = any(p.get("k") == "MethodCall" and peel_ty(p["recv"].get("t", "")) == "alloc::string::String" for p in f.parents_of(i))
+            vlq.append((n, val[0] if len(val) == 1 else None, sink or nested))
+    order, problem = [], None
+    for n, val, direct in vlq:
+        if val is None or not direct:
+            problem = "a VLQ field is not appended where it is computed"
+            continue
+        q = quantity(pv.atoms(val))
+        inv = [b for b in V.bases if qb.get(b) and qb[b] <= q]
+        if not inv:
+            problem = "a VLQ field cannot be tied to a delta base"
+        if not order or order[-1] != inv:
+            order.append(inv)
+    if len([b for b in V.bases if b in qb]) < len(V.bases):
+        problem = problem or "not every delta base has a single remembered quantity"
+    return order, problem
+
+
+def restart_rule(P, R):
+    """co-assigned state: a method that empties the text buffer of a writer in place starts a new mappings string / a new generated
+    file, which is decoded from the origin — it has to put *every* counter of the group back, not all but one"""
+    V = vocab(P)
+    groups = ((MW, V.bases, "delta base", V.add_entry), (SW, [V.f_line, V.f_col], "cursor field", V.write))
+    n = 0
+    for T, group, what, producer in groups:
+        # the output buffer of the writer: the String field its producing method appends to
+        strs = set()
+        for x in inl(P, producer, _not_utf16_len).walk():
+            if x.get("k") == "MethodCall" and x.get("method") in ("push", "push_str", "extend", "write_str", "write_fmt", "insert_str"):
+                tgt = [x["recv"]]
+            elif x.get("k") == "Call" and (call_name(x) or "") in V.vlq_fns:
+                tgt = [a_ for a_ in x["args"] if peel_ty(a_.get("t", "")) == "alloc::string::String"]
+            else:
+                continue
+            for t_ in tgt:
+                t_ = strip(t_)
+                if isinstance(t_, dict) and t_.get("k") == "Field" and norm(t_.get("adt")) == T and peel_ty(t_.get("t", "")) == "alloc::string::String":
+                    strs.add(t_["field"])
+        for m in sorted((g for g in P.fns.values() if g.self_adt == T and not g.derived and "::tests" not in g.path), key=lambda g: g.path):
+            if not m.params or not str(m.params[0].get("t", "")).startswith("&mut"):
+                continue
+            mi = inl(P, m)
+
+            def own(x):
+                x = strip(x)
+                return x["field"] if isinstance(x, dict) and x.get("k") == "Field" and norm(x.get("adt")) == T else None
+            empties = False
+            for x in mi.walk():
+                k = x.get("k")
+                if k == "Call" and (call_name(x) or "").endswith(("mem::take", "mem::replace", "mem::swap")) and any(own(a) in strs for a in x["args"]):
+                    empties = True
+                elif k == "MethodCall" and x.get("method") in ("clear", "drain", "truncate", "split_off") and own(x["recv"]) in strs:
+                    empties = True
+                elif k == "Assign" and own(x["l"]) in strs:
+                    empties = True
+            if not empties:
+                continue
+            n += 1
+            whole = any(x.get("k") == "Assign" and strip(x["l"]).get("k") == "Path" and strip(x["l"]).get("name") == "self" for x in mi.walk())
+            assigned = {own(x["l"]) for x in mi.walk() if x.get("k") in ("Assign", "AssignOp")}
+            missing = [] if whole else [b for b in group if b not in assigned]
+            R.check("R06-a", "restart:%s" % short(m.path), not missing, "restarting the buffer resets every %s" % what,
+                    "%s empties the writer's buffer in place (what follows is a new mappings string / file, decoded from the origin) and resets "
+                    "the other %ss but not %s: the first delta after the restart is taken from the previous output's value"
+                    % (m.path, what, ", ".join("`%s`" % b for b in missing)), loc=m.loc())
+    if not n:
+        R.holds("R06-a", "restart:none", "no method restarts a writer's buffer in place (writers are consumed by into_buffers)")
 
 
 def r06b(P, R):
     """sentinel guard: usize::MAX placed in file_indices must not reach add_entry"""
     rg = inl(P, P.fn("nitrogql_cli::generate::run_generate"), _returns_filemap)
     produces = [n for n in rg.walk() if is_sentinel(P, n)]
-    wf = P.fn(SMW_WRITE_FOR)
+    wf = vocab(P).write_for
     guards = [n for g in scope_fns(P, wf) for n in g.walk() if is_sentinel(P, n)]
     wfi = inl(P, wf)
     pvw = Prov(wfi)
-    idx_reads = [n for n in wfi.walk() if n.get("k") == "Index" and has_field(pvw.atoms(n["e"]), SW, "file_index_mapper")]
+    idx_reads = [n for n in wfi.walk() if n.get("k") == "Index" and has_field(pvw.atoms(n["e"]), SW, vocab(P).f_mapper)]
     R.floor("R06-b", "file-index lookups in write_for", len(idx_reads), 1)
     if not produces:
         R.holds("R06-b", "sentinel-reaches-add_entry", "no sentinel is produced")
@@ -534,10 +748,21 @@ def r06b(P, R):
 
 
 def r06c(P, R):
-    wf = P.fn(SMW_WRITE_FOR)
-    FLUSH = SW + "::flush_pending_indent"
-    scope = [g for g in scope_fns(P, wf) if g.path in P.mir and g.path != FLUSH]
+    V = vocab(P)
+    wf = V.write_for
+    FLUSH = V.flush.path
+    ADD = V.add_entry.path
+    scope = [g for g in scope_fns(P, wf) if g.path in P.mir and g.path not in (FLUSH, ADD)]
     mqs = {g.path: MirQ(P.mir[g.path]) for g in scope}
+
+    def must_emit(path, depth=0):
+        """a helper that records exactly what add_entry records: every normal return is preceded by a segment"""
+        mq = mqs.get(path)
+        if mq is None or depth > 2 or path == wf.path:
+            return False
+        em = mq.calls_to(lambda p: p == ADD or (p != path and must_emit(p, depth + 1)))
+        rets = mq.returns()
+        return bool(rets) and all(any(mq.dominates(e_, r_) for e_ in em) for r_ in rets)
 
     def must_flush(path, depth=0):
         """every normal return of the function is preceded by a flush"""
@@ -565,8 +790,8 @@ def r06c(P, R):
     for g in scope:
         # the segments of a named node may be emitted by write_for itself or by a helper it calls
         mq = mqs[g.path]
-        adds = mq.calls_to(lambda p: p == MW + "::add_entry")
-        maps = mq.calls_to(lambda p: p.endswith("NameMapper::map_name"))
+        adds = mq.calls_to(lambda p: p == ADD or (p != g.path and must_emit(p)))
+        maps = mq.calls_to(lambda p: p in V.name_fns)
         named = [a for a in adds if any(mq.dominates(m, a) for m in maps)]
         n_adds += len(adds)
         n_named += len(named)
@@ -581,7 +806,7 @@ def r06c(P, R):
             R.undecided("R06-c", "flush-before-named-segment", "%s emits the named segments without flushing itself and its callers in write_for's "
                         "scope could not be enumerated" % short(g.path), loc=g.loc())
         # named branch: [add_entry(start, Some(name)), write(chunk), add_entry(end, None)] in that order
-        writes = mq.calls_to(lambda p: p == SMW_WRITE)
+        writes = mq.calls_to(lambda p: p == V.write.path)
         if len(named) >= 2:
             first, last = named[0], named[-1]
             w_between = [w for w in writes if mq.dominates(first, w) and mq.dominates(w, last)]
@@ -593,7 +818,7 @@ def r06c(P, R):
     wfi = inl(P, wf)
     C = Comp(P, wfi)
     pv = C.pv
-    calls = add_entry_calls(wfi)
+    calls = add_entry_calls(P, wfi)
     ifs = [n for n in wfi.walk() if n.get("k") == "If" and has_field(pv.atoms(n["cond"]), POS, "builtin")]
     reads_builtin = any(n.get("k") == "Field" and n.get("field") == "builtin" and norm(n.get("adt")) == POS for n in wfi.walk())
     if not ifs:
@@ -618,14 +843,14 @@ def r06c(P, R):
     # what add_entry is given: the component remembered as generated line/column comes from the writer's cursor, the one remembered
     # as original line/column from the node's position, the source index from the node's file (through the mapper)
     roles = entry_roles(P)
-    need = [("last_generated_line", (SW, "current_line"), (SW, "current_column"), "generated line"),
-            ("last_generated_column", (SW, "current_column"), (SW, "current_line"), "generated column"),
-            ("last_original_line", (POS, "line"), (POS, "column"), "original line"),
-            ("last_original_column", (POS, "column"), (POS, "line"), "original column")]
+    base_of_role = segment_roles(P)
+    need = [("gline", (SW, V.f_line), (SW, V.f_col)), ("gcol", (SW, V.f_col), (SW, V.f_line)),
+            ("oline", (POS, "line"), (POS, "column")), ("ocol", (POS, "column"), (POS, "line"))]
     R.floor("R06-c", "add_entry call sites reachable in write_for", len(calls), 3)
     for j, c in enumerate(calls):
         bad, und = [], []
-        for base, req, opp, what in need:
+        for role, req, opp in need:
+            what, base = ROLE_NAME[role], base_of_role.get(role)
             r = entry_component(C, c, roles[base]) if base in roles else None
             if r is None:
                 und.append(what)
@@ -646,13 +871,38 @@ def r06c(P, R):
             R.undecided("R06-c", "add_entry-args:%d" % j, "could not trace the %s handed to add_entry" % ", ".join(und), loc=wf.loc())
         else:
             R.holds("R06-c", "add_entry-args:%d" % j, "(gen line, gen column, orig line, orig column) each from its own source", loc=wf.loc())
-        r = entry_component(C, c, roles["last_file_index"]) if "last_file_index" in roles else None
-        if r is None or (not (has_field(r[0], SW, "file_index_mapper") or has_field(r[0], POS, "file")) and outside_param(r[0])):
+        base = base_of_role.get("src")
+        r = entry_component(C, c, roles[base]) if base in roles else None
+        if r is None or (not (has_field(r[0], SW, V.f_mapper) or has_field(r[0], POS, "file")) and outside_param(r[0])):
             R.undecided("R06-c", "add_entry-source:%d" % j, "could not trace the source index handed to add_entry", loc=wf.loc())
         else:
-            R.check("R06-c", "add_entry-source:%d" % j, has_field(r[0], SW, "file_index_mapper") or has_field(r[0], POS, "file"),
+            R.check("R06-c", "add_entry-source:%d" % j, has_field(r[0], SW, V.f_mapper) or has_field(r[0], POS, "file"),
                     "source index comes from the node's file through the mapper",
                     "write_for passes a source index not derived from the node's file", loc=wf.loc())
+
+
+def segment_roles(P):
+    """{role: delta base}: which counter of the mapping writer stands for which field of a segment.  Told by the counters' names
+    when they use the Source Map vocabulary; otherwise by position — the k-th VLQ field add_entry emits *is* field k of a v3
+    segment, and the one counter that is never VLQ-encoded (it only produces `;`) is the generated line."""
+    V = vocab(P)
+    if V.base_role:
+        return {r: b for b, r in V.base_role.items()}
+    f = inl(P, V.add_entry)
+    pv = Prov(f, field_assign=False)
+    qb = {}
+    for n in f.walk():
+        if n.get("k") == "Assign" and n["l"].get("k") == "Field" and norm(n["l"].get("adt")) == MW and n["l"]["field"] in V.bases:
+            qb.setdefault(n["l"]["field"], set()).add(quantity(pv.atoms(n["r"])))
+    qb = {b: list(v)[0] for b, v in qb.items() if len(v) == 1}
+    order, problem = vlq_order(P, f, pv, qb)
+    if problem or len(order) != 5 or any(len(o) != 1 for o in order) or len({o[0] for o in order}) != 5:
+        return {}
+    out = {r: o[0] for r, o in zip(ROLES, order)}
+    rest = [b for b in V.bases if b not in out.values()]
+    if len(rest) == 1:
+        out["gline"] = rest[0]
+    return out
 
 
 # ---- emission skeleton seen through same-crate helpers (emit.emission cannot look into a helper)
@@ -750,7 +1000,7 @@ def r06e(P, R):
 
     def locals_of_type(e, ty):
         return {y["local"] for y in subnodes(e) if y.get("k") == "Path" and "local" in y and ty in norm(str(y.get("t", "")))}
-    setm = [c for c in rg.walk() if c.get("k") == "MethodCall" and (call_name(c) or "") == SW + "::set_file_index_mapper"]
+    setm = [c for c in rg.walk() if c.get("k") == "MethodCall" and (call_name(c) or "") == vocab(P).set_mapper.path]
     wcalls = [(i, c) for i, (c, _) in enumerate(nodes) if c.get("k") == "Call" and (call_name(c) or "") == w.path]
     R.floor("R06-e", "SourceWriter uses in run_generate", len(setm), 3)
     R.floor("R06-e", "source-mapped outputs written by run_generate", len(wcalls), 3)
@@ -766,8 +1016,8 @@ def r06e(P, R):
             continue
         mine = [m for m in setm if locals_of_type(m["recv"], SW) & wl]
         if not R.check("R06-e", "mapper-set:%d" % j, bool(mine), "the output's SourceWriter received a file-index mapper",
-                       "a source-mapped output is written from a SourceWriter on which set_file_index_mapper is never called: its segments "
-                       "carry raw file-store indices, not positions in `sources`", loc=rg.loc()):
+                       "a source-mapped output is written from a SourceWriter on which %s is never called: its segments "
+                       "carry raw file-store indices, not positions in `sources`" % vocab(P).set_mapper.name, loc=rg.loc()):
             continue
         ml = set().union(*[locals_of_type(m["args"][0], FM) for m in mine])
         if not fms or not ml:
@@ -943,7 +1193,8 @@ def r06e(P, R):
 
 def r06f(P, R):
     """generated-column arithmetic is in UTF-16 code units; line/column reset on newline"""
-    w0 = P.fn(SMW_WRITE)
+    V = vocab(P)
+    w0 = V.write
     w = inl(P, w0, _not_utf16_len)
     pv = Prov(w, field_assign=False)   # per-field precision on `self`: `self.indent` does not depend on what was added to `self.current_column`
     text = [pv.params[p["local"]] for p in w.params[1:2] if p.get("k") == "Binding"]
@@ -952,65 +1203,60 @@ def r06f(P, R):
         return n.get("k") == "Field" and n.get("field") == name and norm(n.get("adt")) == SW
 
     def advances(n, name):
-        """`self.<name> += e` or `self.<name> = self.<name> + e` -> e"""
-        if n.get("k") == "AssignOp" and n.get("op") == "+=" and sw_field(n["l"], name):
-            return n["r"]
-        if n.get("k") == "Assign" and sw_field(n["l"], name) and strip(n["r"]).get("k") == "Binary" and strip(n["r"]).get("op") == "+":
-            b = strip(n["r"])
-            for own, other in ((b["l"], b["r"]), (b["r"], b["l"])):
-                if sw_field(strip(own), name):
-                    return other
-        return None
+        f_, e = advance_of(n, SW)
+        return e if f_ == name else None
 
     def sets(n, name, value):
         return n.get("k") == "Assign" and sw_field(n["l"], name) and str(lit_value(n["r"])).lower() == value
-    incs = [advances(n, "current_column") for n in w.walk()]
+    incs = [advances(n, V.f_col) for n in w.walk()]
     incs = [e for e in incs if e is not None and text and ("param", text[0]) in pv.atoms(e)]
     incs = list({str(e.get("s")): e for e in incs}.values())   # a helper inlined at several call sites is one site
     R.floor("R06-f", "column increments by the written text (write and its helpers)", len(incs), 1)
     for e in incs:
         a = pv.atoms(e)
-        ok = has_call(a, "utf16_len::utf16_len") and not any(x[0] == "call" and x[1].split("::")[-1] in ("count", "len", "len_utf8") for x in a)
+        ok = has_call(a, V.utf16_len.path) and not any(x[0] == "call" and x[1].split("::")[-1] in ("count", "len", "len_utf8") for x in a)
         R.check("R06-f", "column-units:write", ok, "generated column advances by utf16_len(line)",
                 "SourceWriter::write advances the generated column by something other than the UTF-16 length of the text "
                 "(source map columns are UTF-16 code units): segments after a non-BMP character are misplaced", loc=w.loc())
-    u = P.fn("sourcemap_writer::source_writer::utf16_len::utf16_len")
+    u = V.utf16_len
     methods = [x["method"] for x in u.walk() if x.get("k") == "MethodCall"]
     if "len_utf16" in methods and "sum" in methods:
         R.holds("R06-f", "utf16_len-def", "utf16_len sums char::len_utf16", loc=u.loc())
+    elif "encode_utf16" in methods and ("count" in methods or "len" in methods):
+        R.holds("R06-f", "utf16_len-def", "utf16_len counts the UTF-16 code units of the text", loc=u.loc())
     elif "encode_utf16" not in methods and any(m in ("len", "count", "len_utf8") for m in methods):
         R.violated("R06-f", "utf16_len-def", "utf16_len is not the sum of len_utf16 over chars (it measures with %s)"
                    % sorted(m for m in methods if m in ("len", "count", "len_utf8")), loc=u.loc())
     else:
         R.undecided("R06-f", "utf16_len-def", "utf16_len is not written as a sum of char::len_utf16; its definition is not decided", loc=u.loc())
     # newline: line += 1, column = 0, indent flag set — in write or a helper it calls
-    found = {"the line is advanced": any(advances(n, "current_line") is not None for n in w.walk()),
-             "the column is reset (assigned, not only advanced)": any(n.get("k") == "Assign" and sw_field(n["l"], "current_column") and advances(n, "current_column") is None
+    found = {"the line is advanced": any(advances(n, V.f_line) is not None for n in w.walk()),
+             "the column is reset (assigned, not only advanced)": any(n.get("k") == "Assign" and sw_field(n["l"], V.f_col) and advances(n, V.f_col) is None
                                                                       for n in w.walk()),
-             "indentation is deferred": any(sets(n, "has_indent_flag", "true") for n in w.walk())}
+             "indentation is deferred": any(sets(n, V.f_flag, "true") for n in w.walk())}
     missing = sorted(k for k, v in found.items() if not v)
     R.check("R06-f", "newline-resets", not missing, "a newline advances the line, resets the column and defers indentation",
             "neither write nor a helper it calls does this on a newline: %s" % "; ".join(missing), loc=w.loc())
-    fl = P.fn(SW + "::flush_pending_indent")
+    fl = V.flush
     pvf = Prov(fl)
-    inc = [e for e in (advances(n, "current_column") for n in fl.walk()) if e is not None]
+    inc = [e for e in (advances(n, V.f_col) for n in fl.walk()) if e is not None]
     if len(inc) != 1:
-        R.undecided("R06-f", "indent-column", "flush_pending_indent advances the column at %d places" % len(inc), loc=fl.loc())
+        R.undecided("R06-f", "indent-column", "%s advances the column at %d places" % (fl.name, len(inc)), loc=fl.loc())
     else:
-        R.check("R06-f", "indent-column", has_field(pvf.atoms(inc[0]), SW, "indent"), "flushing indentation advances the column by the indent width",
-                "flush_pending_indent does not advance the column by `indent`", loc=fl.loc())
+        R.check("R06-f", "indent-column", has_field(pvf.atoms(inc[0]), SW, V.f_indent), "flushing indentation advances the column by the indent width",
+                "%s does not advance the column by `%s`" % (fl.name, V.f_indent), loc=fl.loc())
     # closing segment: original column + utf16_len(name)
-    wf = P.fn(SMW_WRITE_FOR)
+    wf = V.write_for
     wfi = inl(P, wf)
     C = Comp(P, wfi)
-    role = entry_roles(P).get("last_original_column")
-    cols = [entry_component(C, c, role) for c in add_entry_calls(wfi)] if role else []
+    role = entry_roles(P).get(segment_roles(P).get("ocol"))
+    cols = [entry_component(C, c, role) for c in add_entry_calls(P, wfi)] if role else []
     if not cols or any(r is None for r in cols):
         R.undecided("R06-f", "closing-segment-units", "the original column handed to add_entry could not be traced at every call", loc=wf.loc())
     else:
         closing = [r for r in cols if ("op", "+") in r[0]]
         if len(closing) == 1:
-            R.check("R06-f", "closing-segment-units", has_call(closing[0][0], "utf16_len"), "range-closing segment = original column + utf16_len(name)",
+            R.check("R06-f", "closing-segment-units", has_call(closing[0][0], V.utf16_len.path), "range-closing segment = original column + utf16_len(name)",
                     "the range-closing segment is not `original column + utf16_len(name)`", loc=wf.loc())
         elif not closing and len(cols) >= 2 and all(r[1] for r in cols):
             R.violated("R06-f", "closing-segment-units", "no segment of write_for adds the length of the name to the original column: the range-closing "
@@ -1018,7 +1264,7 @@ def r06f(P, R):
         else:
             R.undecided("R06-f", "closing-segment-units", "%d segments add something to the original column" % len(closing), loc=wf.loc())
     # VLQ sign/continuation constants (literals or named constants): 4 value bits + sign in the first digit, 5 in the others
-    b = P.fn("sourcemap_writer::base64_vlq::base64_vlq")
+    b = V.vlq_core
     masks, shifts, lshifts, ints = [], [], [], set()
     for x in b.walk():
         v = int_of(P, x) if x.get("k") in ("Lit", "Path") else None
@@ -1034,67 +1280,105 @@ def r06f(P, R):
             elif op == "<<" and rv is not None:
                 lshifts.append(rv)
     if len(masks) < 2 or len(shifts) < 2:
-        R.undecided("R06-f", "vlq-constants", "base64_vlq does not slice the value with two `&` masks and two `>>` shifts (masks=%s, shifts=%s)" % (masks, shifts), loc=b.loc())
+        R.undecided("R06-f", "vlq-constants", "%s does not slice the value with two `&` masks and two `>>` shifts (masks=%s, shifts=%s)" % (b.name, masks, shifts), loc=b.loc())
     else:
         ok = {15, 31} <= set(masks) and {4, 5} <= set(shifts) and (32 in ints or 5 in lshifts) and (1 in lshifts or 2 in ints)
         R.check("R06-f", "vlq-constants", ok, "VLQ uses 4+5-bit groups, sign in bit 0, continuation bit 32",
-                "base64_vlq slices the value with masks %s and shifts %s (continuation bit present: %s); Base64 VLQ needs masks 15 and 31 with shifts 4 and "
-                "5, the sign in bit 0 and continuation bit 32" % (sorted(masks), sorted(shifts), 32 in ints), loc=b.loc())
-    # continuation digits: inside the digit loop, the 5-bit group is read before the shift, and the continuation bit is set exactly
-    # when something remains after this group
+                "%s slices the value with masks %s and shifts %s (continuation bit present: %s); Base64 VLQ needs masks 15 and 31 with shifts 4 and "
+                "5, the sign in bit 0 and continuation bit 32" % (b.name, sorted(masks), sorted(shifts), 32 in ints), loc=b.loc())
+    # continuation digits: inside the digit loop, the 5-bit group is read before the shift, and a digit carries the continuation bit
+    # exactly when something remains after its group.  Two spellings: the bit is *selected* by a test in the iteration that reads the
+    # group, or the digit is *carried* to the next iteration / the loop exit and the bit is implied by staying in the loop.
     nodes = b.nodes()
     loops = [i for i, (x, _) in enumerate(nodes) if x.get("k") == "Loop"]
     R.floor("R06-f", "VLQ digit loop", len(loops), 1)
+    INVERT = {">": "<=", ">=": "<", "<": ">=", "<=": ">", "==": "!=", "!=": "=="}
+    remainder_positive = {("var", ">", 0), ("var", "!=", 0), ("var", ">=", 1)}
+
+    def ints_in(e):
+        return {int_of(P, y) for y in subnodes(e or {}) if y.get("k") in ("Lit", "Path", "Binary")} - {None}
+
+    def test_form(cond, var):
+        cond = strip(cond)
+        if cond.get("k") != "Binary":
+            return None
+        lhs, rhs, op = strip(cond["l"]), cond["r"], cond.get("op")
+        n = int_of(P, rhs)
+        if n is None:
+            return None
+        if lhs.get("k") == "Path" and lhs.get("local") == var:
+            return ("var", op, n)
+        if lhs.get("k") == "Binary" and lhs.get("op") == ">>" and strip(lhs["l"]).get("local") == var and int_of(P, lhs["r"]) == 5:
+            return ("shifted", op, n)
+        return None
     for li in loops:
         loop = nodes[li][0]
         inside = [(i, x) for i, (x, _) in enumerate(nodes) if i > li and templates_contains(loop, x)]
         shifts = [(i, x) for i, x in inside if x.get("k") == "AssignOp" and x.get("op") == ">>=" and int_of(P, x["r"]) == 5]
-        conts = [(i, x) for i, x in inside if x.get("k") == "If" and not x.get("x")
-                 and {int_of(P, y) for y in subnodes(x.get("then")) + subnodes(x.get("else") or {}) if y.get("k") in ("Lit", "Path")} >= {32, 0}]
-        masks = [(i, x) for i, x in inside if x.get("k") == "Binary" and x.get("op") == "&" and int_of(P, x["r"]) == 31]
-        if len(shifts) != 1 or len(conts) != 1 or len(masks) != 1:
-            R.undecided("R06-f", "vlq-continuation", "digit loop not in a recognised shape (shifts=%d, continuation tests=%d, masks=%d)" % (len(shifts), len(conts), len(masks)), loc=b.loc())
+        masks = [(i, x) for i, x in inside if x.get("k") == "Binary" and x.get("op") == "&" and 31 in (int_of(P, x["r"]), int_of(P, x["l"]))]
+        conts = [(i, x) for i, x in inside if x.get("k") == "If" and not x.get("x") and 32 in (ints_in(x.get("then")) | ints_in(x.get("else")))
+                 and ("else" not in x or 0 in (ints_in(x.get("then")) | ints_in(x.get("else"))))]
+        ors = [(i, x) for i, x in inside if ((x.get("k") == "Binary" and x.get("op") == "|") or (x.get("k") == "AssignOp" and x.get("op") == "|="))
+               and 32 in (int_of(P, x["r"]), int_of(P, x["l"]))]
+        exits = [(i, x) for i, x in inside if x.get("k") == "If"
+                 and any(y.get("k") in ("Break", "Ret") for br in (x.get("then"), x.get("else")) if br for y in subnodes(br) if not templates_contains_loop(br, y))]
+        if len(shifts) != 1 or len(masks) != 1:
+            R.undecided("R06-f", "vlq-continuation", "digit loop not in a recognised shape (shifts=%d, masks=%d)" % (len(shifts), len(masks)), loc=b.loc())
             continue
-        (si, sh), (ci, co), (mi, ma) = shifts[0], conts[0], masks[0]
+        (si, sh), (mi, ma) = shifts[0], masks[0]
         var = sh["l"].get("local")
-        cond = co["cond"]
-        while cond.get("k") in ("DropTemps", "Paren"):
-            cond = cond["e"]
-        form = None
-        if cond.get("k") == "Binary":
-            lhs, rhs, op = cond["l"], cond["r"], cond.get("op")
-            n = int_of(P, rhs)
-            if lhs.get("k") == "Path" and lhs.get("local") == var and n is not None:
-                form = ("var", op, n)
-            elif lhs.get("k") == "Binary" and lhs.get("op") == ">>" and lhs["l"].get("local") == var and int_of(P, lhs["r"]) == 5 and n is not None:
-                form = ("shifted", op, n)
-        after = ci > si
-        if form is None:
-            R.undecided("R06-f", "vlq-continuation", "continuation test is not a comparison of the remaining value with a constant", loc=b.loc())
+        if len(conts) == 1:
+            ci, co = conts[0]
+            form = test_form(co["cond"], var)
+            if form is not None and 32 not in ints_in(co.get("then")):
+                form = (form[0], INVERT.get(form[1], form[1]), form[2])   # the bit is set in the else branch
+            after = ci > si
+            if form is None:
+                R.undecided("R06-f", "vlq-continuation", "continuation test is not a comparison of the remaining value with a constant", loc=b.loc())
+            else:
+                ok = (form in remainder_positive) if (after or form[0] == "shifted") else form in {("var", ">", 31), ("var", ">=", 32)}
+                if form[0] == "shifted" and after:
+                    ok = False
+                R.check("R06-f", "vlq-continuation", ok, "continuation bit <=> a non-zero remainder follows this 5-bit group",
+                        "the continuation bit of a VLQ digit is decided by `%s %s %d` evaluated %s the 5-bit shift: for some values a digit is "
+                        "written without its continuation bit although another digit follows (or vice versa), so the field decodes as two"
+                        % ("value" if form[0] == "var" else "value >> 5", form[1], form[2], "after" if after else "before"), loc=b.loc())
+        elif not conts and len(ors) == 1 and ors[0][0] < mi and len(exits) == 1:
+            # carried digit: [emit digit|32; digit = rest & 31; rest >>= 5] while something remains; the last digit is emitted bare
+            ei, ex = exits[0]
+            form = test_form(ex["cond"], var)
+            leaves_in_then = any(y.get("k") in ("Break", "Ret") for y in subnodes(ex["then"]) if not templates_contains_loop(ex["then"], y))
+            if form is not None and leaves_in_then:
+                form = (form[0], INVERT.get(form[1], form[1]), form[2])   # the test is the exit condition
+            if form is None or form[0] != "var" or ei > mi:
+                R.undecided("R06-f", "vlq-continuation", "the loop that carries the digit is not guarded by a comparison of the remaining value", loc=b.loc())
+            else:
+                R.check("R06-f", "vlq-continuation", form in remainder_positive, "a digit gets the continuation bit <=> a non-zero remainder is left when it is emitted",
+                        "the digit loop emits a digit with its continuation bit while `rest %s %d` (tested before the next group is read): for some "
+                        "values the last digit carries a dangling continuation bit, or remaining bits are dropped" % (form[1], form[2]), loc=b.loc())
         else:
-            remainder_positive = {("var", ">", 0), ("var", "!=", 0), ("var", ">=", 1)}
-            ok = (form in remainder_positive) if (after or form[0] == "shifted") else form in {("var", ">", 31), ("var", ">=", 32)}
-            if form[0] == "shifted" and after:
-                ok = False
-            R.check("R06-f", "vlq-continuation", ok, "continuation bit <=> a non-zero remainder follows this 5-bit group",
-                    "the continuation bit of a VLQ digit is decided by `%s %s %d` evaluated %s the 5-bit shift: for some values a digit is "
-                    "written without its continuation bit although another digit follows (or vice versa), so the field decodes as two"
-                    % ("value" if form[0] == "var" else "value >> 5", form[1], form[2], "after" if after else "before"), loc=b.loc())
+            R.undecided("R06-f", "vlq-continuation", "digit loop not in a recognised shape (continuation tests=%d, `| 32` sites=%d, exit tests=%d)"
+                        % (len(conts), len(ors), len(exits)), loc=b.loc())
+            continue
         R.check("R06-f", "vlq-group-before-shift", mi < si, "the digit's 5 bits are read before the value is shifted",
                 "the 5-bit group is read after the shift: the digit carries the next group's bits", loc=b.loc())
-    # the digit alphabet: the char table base64_vlq indexes (found by use, whatever its name)
-    tab = []
+    # the digit alphabet: the table the encoder indexes (found by use, whatever its name or element type)
+    tabs = {}
     for x in b.walk():
-        if x.get("k") == "Path" and "def" in x:
-            c = P.fns.get(norm(x["def"]))
-            if c is not None and str(c.kind).startswith(("Const", "Static")) and c not in tab and any(y.get("k") == "Lit" and y.get("lk") == "char" for y in c.walk()):
-                tab.append(c)
-    if len(tab) == 1:
-        chars = "".join(x.get("v") for x in tab[0].walk() if x.get("k") == "Lit" and x.get("lk") == "char")
+        t = digit_table(P, x)
+        if t:
+            tabs[t[1].path] = t
+    if len(tabs) == 1:
+        chars, c = list(tabs.values())[0]
         R.check("R06-f", "base64-alphabet", chars == "ABCDEFGHIJKLMNOPQRSTUVWXYZabcdefghijklmnopqrstuvwxyz0123456789+/",
-                "standard base64 alphabet in order", "base64 alphabet table is `%s`" % chars, loc=tab[0].loc())
+                "standard base64 alphabet in order", "base64 alphabet table is `%s`" % chars, loc=c.loc())
     else:
-        R.undecided("R06-f", "base64-alphabet", "kind=anchor-missing: base64_vlq does not index exactly one constant table of chars (%d found)" % len(tab))
+        R.undecided("R06-f", "base64-alphabet", "kind=anchor-missing: the VLQ encoder does not index exactly one constant table of 64 digits (%d found)" % len(tabs))
+
+
+def templates_contains_loop(root, node):
+    """is `node` inside a loop nested in `root` (its break would leave that inner loop, not the one under analysis)"""
+    return any(y.get("k") == "Loop" and templates_contains(y, node) for y in subnodes(root) if y is not root)
 
 
 RULES = [("R06-a", r06a), ("R06-b", r06b), ("R06-c", r06c), ("R06-d", r06d), ("R06-e", r06e), ("R06-f", r06f)]
